@@ -57,6 +57,31 @@ theorem grant_conditions {s s' : State} {m : GrantMsg} (h : grantReward s m = .o
     · exact absurd h8 h8'
     · exact ⟨b, hb, by rw [he]; rfl⟩
 
+/-- with non-negative components (every reachable state of the patched variant, and of the code as it is under
+    `OpNonneg`) a grant pays exactly the booked amounts: the receiver's main account gets `a.main`, its subaccount
+    address `a.sub`, the pool loses `a.main + a.sub` -/
+theorem grant_exact {s s' : State} {m : GrantMsg} (hP : PoolEq s) (h : grantReward s m = .ok s') :
+    ∃ a, s'.rewards = s.rewards ++ [{ uid := m.uid, creator := m.creator, receiver := m.receiver, campaign := m.campaign, amt := a }] ∧
+      0 ≤ a.main ∧ 0 ≤ a.sub ∧
+      s'.bank POOL = s.bank POOL - (a.main + a.sub) ∧
+      (m.receiver ≠ POOL →
+        s'.bank m.receiver = s.bank m.receiver + a.main ∧
+        s'.bank (SUBBASE + m.receiver) = s.bank (SUBBASE + m.receiver) + a.sub) := by
+  obtain ⟨c, r, caps, d, _, hget, _, _, _, hcalc, _, _, hdist, rfl⟩ := grantReward_ok h
+  obtain ⟨h1, h2, _, _⟩ := grant_amt_nonneg hP (hP.nonneg c (getC_mem _ _ _ hget)) hcalc
+  have hp := distribute_pool hdist
+  refine ⟨r.2, rfl, h1, h2, ?_, ?_⟩
+  · show d.1 POOL = _
+    rw [hp]
+    split <;> split <;> omega
+  · intro hr
+    obtain ⟨e1, e2⟩ := distribute_receiver hdist hr
+    refine ⟨?_, ?_⟩
+    · show d.1 m.receiver = _
+      rw [e1]; split <;> omega
+    · show d.1 (SUBBASE + m.receiver) = _
+      rw [e2]; split <;> omega
+
 /-! ### per-category cap -/
 
 theorem catCapHit_false {byCat : List CatIdx} {p : Promoter} {category receiver : Nat}
